@@ -828,7 +828,6 @@ func enclosingAnd(root ast.Node, n ast.Node) []ast.Expr {
 	return out
 }
 
-
 // indexedBase: the value being indexed / sliced by n.
 func indexedBase(n ast.Node) ast.Expr {
 	switch x := n.(type) {
